@@ -24,38 +24,70 @@ THEOREMS = [_T + n for n in [
     "C19_oov_irrelevant",
     "C19_holds_classification", "C19_holds_multilabel", "C19_holds_prediction", "C19_holds_prediction_determines",
     "C19_eq_structural", "C19_hash_respects_eq", "C19_hash_reads_fields", "C19_hash_table",
-    "C19_hash_respects_eq_tag"]]
+    "C19_hash_respects_eq_tag",
+    # review additions
+    "C19_generic_classification", "C19_generic_fill_error_iff", "C19_generic_fill_get", "C19_generic_multilabel",
+    "C19_generic_skip", "C19_simple_is_generic", "C19_decodeI_nonneg", "C19_decodeI_neg", "C19_decodeI_none_iff",
+    "C19_find_by_term", "C19_find_by_label", "C19_find_by_error_iff", "C19_find_by_first",
+    "C19_key_of_term_from_key", "C19_term_from_key_inj", "C19_tag_init", "C19_feature_init",
+    "C19_key_tags_faithful", "C19_key_vocab_nodup",
+    "C19_hashdict_sound", "C19_hashdict_needs_contract", "C19_encoder_on_hash_table",
+    "C19_pyeq_canonical", "C19_pyeq_equivalence", "C19_pyhash_respects_eq", "C19_pyhash_reads_only"]]
 LEVEL_TEXT = ("Lean theorems over a model of the encoder as the Python dict it is (insertion-ordered association list, "
-              "later equal key overwrites): for duplicate-free vocabularies encode = i iff the tag is the i-th vocabulary "
+              "later equal key overwrites; proved equal to a hash table that compares hashes first whenever ==-equal keys "
+              "hash equally): for duplicate-free vocabularies encode = i iff the tag is the i-th vocabulary "
               "tag, = none iff it is absent, equals the linear search for the first equal element, decode/encode are "
-              "inverse; classification = encoding of the first in-vocabulary tag; multilabel = indicator vector; "
+              "inverse, decode follows the list index rule for every Python integer; classification = encoding of the "
+              "first in-vocabulary tag; multilabel = indicator vector; "
               "prediction = stored score of the last prediction of each vocabulary tag (0 if none); deleting "
-              "out-of-vocabulary tags changes no result; modelled == is structural equality and every hash key is a "
-              "function of compared fields. Model tied to the code by exhaustive small vocabularies x tag lists on the "
-              "real dict-based encoder (exact), all pairs of one-field perturbations of the eight hashable classes "
-              "(== against the model, a == b => hash(a) == hash(b) on the real objects) and regenerated field tables.")
-LEVEL_NOTE = ("Trusted: Lean kernel; CPython dict/tuple/str/float/UUID hashing and equality; pydantic BaseModel.__eq__ is "
+              "out-of-vocabulary tags changes no result; the same three functions over any Encoder (the Protocol: "
+              "many-to-one tables, numpy's index rule, IndexError iff an index is outside [-n, n)) with SimpleEncoder "
+              "proved an instance; find_tag / find_feature (term before label, first match, default, ValueError) and the "
+              "deprecated key= / name= construction path (term wins, term_from_key injective, key-built tags equal and "
+              "hash as their term-built twins); modelled == is structural equality, Python == on raw values (1 == 1.0, "
+              "0.0 == -0.0) is equality of canonical trees and an equivalence, and for any primitive hash functions "
+              "obeying the numeric hash invariant and any table of hashed fields, == implies equal hashes. Model tied to "
+              "the code by exhaustive small vocabularies x tag lists on the real dict-based encoder (exact), every small "
+              "user-defined encoder table x tag list, all pairs of one-field perturbations of the eight hashable classes "
+              "(== against the model, a == b => hash(a) == hash(b) on the real objects, also for objects holding unvalidated "
+              "ints / signed zeros), regenerated field tables, and the hand-written __hash__ methods run on opaque "
+              "field values (what they hash, for all values) with the hash theorem instantiated on the extracted table.")
+LEVEL_NOTE = ("Trusted: Lean kernel; CPython dict/tuple/str/float/UUID hashing and equality (probing order of dict "
+              "abstracted: every entry with the probe's hash is compared); pydantic BaseModel.__eq__ is "
               "observed, not modelled from source; numpy float32 store (its value is computed by the harness with "
-              "struct and handed to the model). Unmodelled: vocabularies with repeated tags (outside the quantifier; "
-              "the model covers them, the check does not compare them), negative decode indices, NaN feature values. "
+              "struct and handed to the model) and numpy / list index rule (monitored as contracts). Unmodelled: "
+              "vocabularies with repeated tags (outside the quantifier; "
+              "the model covers them, the check does not compare them), NaN feature values (PyVal floats are finite), "
+              "hash traces cannot see id()/type() of a field value (identity dependence is observed on two instances). "
               "Model tied to the code by regenerated obligations and generator-bounded correspondence.")
-TECHNIQUE = ("Lean 4 proof over model (dict as association list, fill loops); field tables regenerated by "
-             "introspection and one-field perturbation; exhaustive small-scope correspondence on the real encoder; "
-             "eq/hash monitor on the real classes")
+TECHNIQUE = ("Lean 4 proof over model (dict as association list = hash table under the contract, fill loops over any "
+             "encoder with numpy's index rule, find_tag, key= path, raw Python values and parametric hashes); field tables "
+             "regenerated by introspection and one-field perturbation; __hash__ methods executed on opaque leaves (tie 1b) "
+             "and the hash theorem instantiated on the extracted table; exhaustive small-scope correspondence on the real "
+             "encoder and on user-defined encoders; eq/hash monitor on the real classes; purity / list-vs-tuple / reuse "
+             "probes on every call")
 RULE = ("exhaustive vocabularies (<= 4 distinct tags) x tag / predicted-tag lists over an adversarial pool (terms sharing "
-        "name or label, optional-field and extra-field variants, empty values), random longer ones, all ordered pairs of "
-        "one-field perturbations per hashable class; non-trivial = some tag was encoded / the vector is non-zero / the "
-        "pair compares equal or differs in exactly one field; distinct = distinct (operation, input)")
+        "name or label, optional-field and extra-field variants, empty values, case / blank / Unicode-composition variants "
+        "of values), random longer ones, every encoder table of 3 tags into {skip, 0..K-1} (K <= 2) x tag lists, all "
+        "ordered pairs of one-field perturbations per hashable class, raw int/float/signed-zero variants reached by "
+        "model_copy(update) / setattr / model_construct; non-trivial = some tag was encoded / the vector is non-zero / the "
+        "pair compares equal or differs in exactly one field / a tag was found; distinct = distinct (operation, input)")
 TRUSTED = ["CPython dict, tuple, str, float and UUID hashing/equality",
            "pydantic-core construction of the data objects (observed through __dict__ / __pydantic_extra__)",
-           "numpy float32 assignment (value recomputed with struct.pack('f') and monitored as a contract)"]
+           "numpy float32 assignment (value recomputed with struct.pack('f') and monitored as a contract)",
+           "numpy / list / tuple index rule (normIdx; monitored as a contract on the libraries themselves)",
+           "CPython numeric hash invariant hash(n) == hash(float(n)) (hypothesis of C19_pyhash_respects_eq; monitored)"]
 ASSUMPTIONS = ["the walk of an object (class name, declared fields in order, extra fields) captures everything "
                "pydantic's __eq__ compares (no private attributes in soundevent.data: monitored by the table obligation)",
-               "string / UUID hashes of the distinct perturbation values differ (2^-64 collision probability)"]
+               "string / UUID hashes of the distinct perturbation values differ (2^-64 collision probability)",
+               "a __hash__ that runs on opaque leaves (no ==, bool, str, len, ordering of a field value) treats real "
+               "field values the same way (no branching on id()/type(), which a leaf cannot intercept)"]
 NOT_COMPARED = ["vocabularies with repeated tags (the property quantifies over distinct tags; dict keeps the last index)",
-                "prediction vectors when one vocabulary tag is predicted with two different scores: only "
+                "prediction vectors when one vocabulary tag (one index) is predicted with two different scores: only "
                 "`holdsPrediction` (entry is one of that tag's scores) is required there",
-                "error messages; hash values themselves (only their equality)"]
+                "encoder indices outside [0, n) and decode outside [0, n): compared (numpy / list index rule) but not fixed "
+                "by the property - a disagreement is a broken correspondence, not by itself a violation",
+                "error messages; hash values themselves (only their equality); dtype of the multilabel vector"]
 
 # ------------------------------------------------------------------ descriptors <-> real objects
 TERM_FIELDS = ["label", "definition", "name", "uri", "type_of_term", "comment", "see", "subproperty_of",
@@ -195,7 +227,10 @@ T6 = term_desc("species", "dwc:species", definition="")           # falsy defini
 CORE = [{"term": T0, "value": "dog"}, {"term": T1, "value": "dog"}, {"term": T2, "value": "dog"},
         {"term": T0, "value": "cat"}, {"term": T3, "value": "dog"}]
 POOL = CORE + [{"term": T4, "value": "dog"}, {"term": T5, "value": ""}, {"term": T5, "value": "dog"},
-               {"term": T0, "value": ""}, {"term": T6, "value": "dog"}]
+               {"term": T0, "value": ""}, {"term": T6, "value": "dog"},
+               # review: values that a "normalising" key would identify (case, blanks, Unicode composition)
+               {"term": T0, "value": "Dog"}, {"term": T0, "value": "dog "},
+               {"term": T0, "value": "caf\u00e9"}, {"term": T0, "value": "cafe\u0301"}]
 SCORES = [0.0, 1.0, 0.25, 0.1, 1 / 3, 2.0 ** -30, 1 - 2.0 ** -53, 5e-324, 0.7]
 
 
@@ -211,14 +246,38 @@ def pred_desc(tag, score):
 # ------------------------------------------------------------------ implementations
 def _encoder(inp):
     from soundevent.evaluation import encoding
-    return encoding.create_tag_encoder([mk_tag(t) for t in inp["vocab"]])
+    vocab = [mk_tag(t) for t in inp["vocab"]]
+    # the vocabulary is a Sequence: a list for one input, a tuple for the next
+    return encoding.create_tag_encoder(vocab if len(jkey(inp)) % 2 else tuple(vocab))
+
+
+def _fresh_tag(d):
+    """a tag object of its own (never the cached one), so that nothing can lean on identity"""
+    from soundevent import data
+    return data.Tag(term=_fresh_term(d["term"]), value=d["value"])
 
 
 def _impl_encoder(inp):
-    enc = _encoder(inp)
+    from soundevent.evaluation import encoding
+    vocab = [mk_tag(t) for t in inp["vocab"]]
+    snapshot = list(vocab)
+    enc = encoding.create_tag_encoder(vocab)
     n = enc.num_classes
+    first = [enc.encode(mk_tag(t)) for t in inp["tags"]]
+    # the same encoder asked again: in reverse order, and about short-lived equal objects (whose addresses
+    # CPython hands out again); a second encoder over a tuple of the same tags
+    again = [enc.encode(mk_tag(t)) for t in reversed(inp["tags"])][::-1]
+    temp = [enc.encode(_fresh_tag(t)) for t in inp["tags"]]
+    other = [encoding.create_tag_encoder(tuple(snapshot)).encode(mk_tag(t)) for t in inp["tags"]]
+    if not (first == again == temp == other):
+        raise AssertionError("encode is not a function of the vocabulary and the tag: %r %r %r %r"
+                             % (first, again, temp, other))
+    if len(vocab) != len(snapshot) or any(a is not b for a, b in zip(vocab, snapshot)):
+        raise AssertionError("the encoder changed the vocabulary list it was given")
+    if any(type(e) is not int for e in first if e is not None):
+        raise AssertionError("encode returned something that is not an int")
     return {"num_classes": n,
-            "encode": [enc.encode(mk_tag(t)) for t in inp["tags"]],
+            "encode": first,
             "decode": [_full(tag_to_desc(enc.decode(i))) for i in range(len(inp["vocab"]))]}
 
 
@@ -231,14 +290,15 @@ def _full(d):
 
 def _impl_classification(inp):
     from soundevent.evaluation import encoding
-    r = encoding.classification_encoding([mk_tag(t) for t in inp["tags"]], _encoder(inp))
+    r = _twice(encoding.classification_encoding, [mk_tag(t) for t in inp["tags"]], _encoder(inp))
     return None if r is None else int(r)
 
 
 def _impl_multilabel(inp):
     from soundevent.evaluation import encoding
-    r = encoding.multilabel_encoding([mk_tag(t) for t in inp["tags"]], _encoder(inp))
-    assert r.ndim == 1
+    import numpy as np
+    r = _twice(encoding.multilabel_encoding, [mk_tag(t) for t in inp["tags"]], _encoder(inp), same=_arr_same)
+    assert r.ndim == 1 and r.dtype.kind in "iub"
     return [int(x) for x in r]
 
 
@@ -251,7 +311,7 @@ def _impl_prediction(inp):
         s = float(Fraction(p["score"]))
         assert rat(f32(s)) == p["score32"], "stale score32 in input"
         preds.append(data.PredictedTag(tag=mk_tag(p["tag"]), score=s))
-    r = encoding.prediction_encoding(preds, _encoder(inp))
+    r = _twice(encoding.prediction_encoding, preds, _encoder(inp), same=_arr_same)
     assert r.ndim == 1 and r.dtype == np.float32
     return [rat(float(x)) for x in r]
 
@@ -408,6 +468,346 @@ def _holds_eq_hash(ctx, inp, io):
     return None
 
 
+# ------------------------------------------------------------------ review additions: implementations
+GPOOL = POOL[:4]          # the tags the user-defined encoders of the generic ops are tables over
+
+
+class _TableEncoder:
+    """a user-defined Encoder (the Protocol of encoding.py): a table over the objects of a fixed pool"""
+
+    def __init__(self, objs, table, n, np_int=False):
+        self._objs = objs                                  # kept alive: ids stay valid
+        self._pos = {id(o): i for i, o in enumerate(objs)}
+        self._table = table
+        self.num_classes = n
+        self._np = np_int
+        self.calls = 0
+
+    def encode(self, tag):
+        self.calls += 1
+        r = self._table[self._pos[id(tag)]]
+        if r is None:
+            return None
+        if self._np:
+            import numpy as np
+            return np.int64(r)
+        return r
+
+    def decode(self, index):
+        raise NotImplementedError
+
+
+def _g_setup(inp):
+    objs = [mk_tag(t) for t in GPOOL]
+    enc = _TableEncoder(objs, inp["enc"], inp["n"], bool(inp.get("np")))
+    if inp.get("proto"):
+        # the same, declared as an implementation of the Protocol class
+        from soundevent.evaluation import encoding
+        cls = type("ProtoEncoder", (_TableEncoder, encoding.Encoder), {})
+        enc = cls(objs, inp["enc"], inp["n"], bool(inp.get("np")))
+    return objs, enc
+
+
+def _twice(f, seq, *rest, same=lambda a, b: a == b):
+    """call f(seq, …) on a list, again on the same list, and on a tuple: the answer is a function of the arguments"""
+    snapshot = list(seq)
+    r1 = f(seq, *rest)
+    if len(seq) != len(snapshot) or any(a is not b for a, b in zip(seq, snapshot)):
+        raise AssertionError("the function changed the list it was given")
+    r2 = f(seq, *rest)
+    r3 = f(tuple(snapshot), *rest)
+    if not same(r1, r2):
+        raise AssertionError("a second call with the same arguments gives another result")
+    if not same(r1, r3):
+        raise AssertionError("a tuple of the same tags gives another result than the list")
+    return r1
+
+
+def _arr_same(a, b):
+    import numpy as np
+    return a is not b and a.dtype == b.dtype and a.shape == b.shape and bool(np.array_equal(a, b))
+
+
+def _impl_classification_g(inp):
+    from soundevent.evaluation import encoding
+    objs, enc = _g_setup(inp)
+    r = _twice(encoding.classification_encoding, [objs[i] for i in inp["tags"]], enc)
+    return None if r is None else int(r)
+
+
+def _impl_multilabel_g(inp):
+    from soundevent.evaluation import encoding
+    objs, enc = _g_setup(inp)
+    r = _twice(encoding.multilabel_encoding, [objs[i] for i in inp["tags"]], enc, same=_arr_same)
+    assert r.ndim == 1
+    return [int(x) for x in r]
+
+
+def _impl_prediction_g(inp):
+    from soundevent import data
+    from soundevent.evaluation import encoding
+    import numpy as np
+    objs, enc = _g_setup(inp)
+    preds = []
+    for p in inp["preds"]:
+        s = float(Fraction(p["score"]))
+        assert rat(f32(s)) == p["score32"], "stale score32 in input"
+        preds.append(data.PredictedTag(tag=objs[p["i"]], score=s))
+        # pydantic copies nothing here: the encoder is asked about the pool object itself
+        assert preds[-1].tag is objs[p["i"]]
+    r = _twice(encoding.prediction_encoding, preds, enc, same=_arr_same)
+    assert r.ndim == 1 and r.dtype == np.float32
+    return [rat(float(x)) for x in r]
+
+
+def _open_prediction_g(inp):
+    """two predictions land on one index with different stored scores: the entry is left open"""
+    n = inp["n"]
+    seen = {}
+    for p in inp["preds"]:
+        e = inp["enc"][p["i"]]
+        if e is None:
+            continue
+        k = e if e >= 0 else e + n
+        if seen.setdefault(k, p["score32"]) != p["score32"]:
+            return True
+    return False
+
+
+def _cmp_prediction_g(inp, io, mo):
+    if isinstance(io, list) and isinstance(mo, list) and _open_prediction_g(inp):
+        # every entry must still be 0 or one of the stored scores sent to that index
+        n = inp["n"]
+        for k, x in enumerate(io):
+            cands = {p["score32"] for p in inp["preds"]
+                     if inp["enc"][p["i"]] is not None and inp["enc"][p["i"]] % n == k}
+            if (x not in cands) if cands else (x != "0"):
+                return "an entry is neither 0-for-absent nor a score sent to that index"
+        return None if len(io) == n else "wrong length"
+    return None if io == mo else "implementation and model disagree"
+
+
+def _cmp_oor(inp, io, mo):
+    """index rule of the stores behind a user-defined encoder: both raise, or the same vector"""
+    ie = isinstance(io, dict) and "raise" in io
+    me = isinstance(mo, dict) and "raise" in mo
+    if ie or me:
+        return None if ie and me else "IndexError on one side only"
+    return None if io == mo else "implementation and model disagree"
+
+
+def _impl_decode_i(inp):
+    enc = _encoder(inp)
+    enc_t = _encoder_of(tuple(mk_tag(t) for t in inp["vocab"]))
+    out = []
+    for i in inp["idx"]:
+        rs = []
+        for e in (enc, enc_t):
+            try:
+                rs.append({"val": _full(tag_to_desc(e.decode(i)))})
+            except IndexError:
+                rs.append({"raise": "index"})
+        if rs[0] != rs[1]:
+            raise AssertionError("decode differs between a list and a tuple vocabulary")
+        out.append(rs[0])
+    return out
+
+
+def _encoder_of(seq):
+    from soundevent.evaluation import encoding
+    return encoding.create_tag_encoder(seq)
+
+
+def _opt(inp, k, f):
+    return None if inp.get(k) is None else f(inp[k])
+
+
+def _impl_find_tag(inp):
+    from soundevent import data
+    tags = [mk_tag(t) for t in inp["tags"]]
+    kw = {}
+    if "label" in inp:
+        kw["label"] = inp["label"]
+    if "term" in inp:
+        kw["term"] = _opt(inp, "term", _fresh_term)
+    if "default" in inp:
+        kw["default"] = _opt(inp, "default", mk_tag)
+    r = _twice(lambda seq: data.find_tag(seq, **kw), tags, same=lambda a, b: a is b)
+    if r is not None and not any(r is t for t in tags) and r is not kw.get("default"):
+        raise AssertionError("find_tag returned an object that is neither in the list nor the default")
+    return {"val": None if r is None else _full(tag_to_desc(r))}
+
+
+def _fresh_term(d):
+    _CACHE.pop("T" + jkey(d), None)
+    return mk_term(d)
+
+
+def _feat_desc(f):
+    d = tag_to_desc(f)          # reads .term and .value only
+    return {"term": _full(d)["term"], "value": rat(f.value)}
+
+
+def _mk_feature(d):
+    from soundevent import data
+    return data.Feature(term=_fresh_term(d["term"]), value=float(Fraction(d["value"])))
+
+
+def _impl_find_feature(inp):
+    from soundevent import data
+    feats = [_mk_feature(f) for f in inp["features"]]
+    kw = {}
+    if "label" in inp:
+        kw["label"] = inp["label"]
+    if "term" in inp:
+        kw["term"] = _opt(inp, "term", _fresh_term)
+    if "default" in inp:
+        kw["default"] = _opt(inp, "default", _mk_feature)
+    r = _twice(lambda seq: data.find_feature(seq, **kw), feats, same=lambda a, b: a is b)
+    return {"val": None if r is None else _feat_desc(r)}
+
+
+def _impl_tag_init(inp):
+    from soundevent import data
+    from soundevent.evaluation import encoding
+    kw = {"value": inp["value"]}
+    if inp.get("key") is not None:
+        kw["key"] = inp["key"]
+    if inp.get("term") is not None:
+        kw["term"] = _fresh_term(inp["term"])
+    how = inp.get("how", "init")
+    if how == "init":
+        t = data.Tag(**kw)
+    else:
+        t = data.Tag.model_validate(kw)
+    # the same tag spelled with the term: equal, same hash, same index (the two halves of the property)
+    twin = data.Tag(term=data.Term(**{(data.Term.model_fields[f].alias or f): v
+                                      for f, v in tag_to_desc(t)["term"].items() if f != "extra"},
+                                   **dict(tag_to_desc(t)["term"]["extra"])), value=inp["value"])
+    if not (t == twin and twin == t):
+        raise AssertionError("a tag built from key= differs from the tag with the same term and value")
+    if hash(t) != hash(twin):
+        raise AssertionError("a == b but hash(a) != hash(b) (a built from key=)")
+    if encoding.create_tag_encoder([twin]).encode(t) != 0 or encoding.create_tag_encoder([t]).encode(twin) != 0:
+        raise AssertionError("a tag built from key= is not encoded as the equal tag of the vocabulary")
+    import warnings
+    with warnings.catch_warnings():
+        warnings.simplefilter("ignore")
+        key = t.key
+    return {"val": {"tag": _full(tag_to_desc(t)), "key": key}}
+
+
+def _impl_feature_init(inp):
+    from soundevent import data
+    kw = {"value": float(Fraction(inp["value"]))}
+    if inp.get("name") is not None:
+        kw["name"] = inp["name"]
+    if inp.get("term") is not None:
+        kw["term"] = _fresh_term(inp["term"])
+    f = data.Feature(**kw) if inp.get("how", "init") == "init" else data.Feature.model_validate(kw)
+    twin = data.Feature(term=f.term.model_copy(), value=f.value)
+    if not (f == twin) or hash(f) != hash(twin):
+        raise AssertionError("a feature built from name= differs (== / hash) from its twin")
+    import warnings
+    with warnings.catch_warnings():
+        warnings.simplefilter("ignore")
+        name = f.name
+    return {"val": {"feature": _feat_desc(f), "name": name}}
+
+
+# ---- raw values: what Python keeps apart although == identifies it (1 / 1.0, 0.0 / -0.0) ---------
+def walk_raw(x):
+    """as `walk`, numbers left as they are: {"i": int} | {"f": rat, "neg0": bool}"""
+    from pydantic import BaseModel
+    if x is None or isinstance(x, bool):
+        return x
+    if isinstance(x, enum.Enum):
+        return walk_raw(x.value)
+    if isinstance(x, int):
+        return {"i": int(x)}
+    if isinstance(x, float):
+        if not math.isfinite(x):
+            raise RuntimeError("non-finite float is not modelled")
+        return {"f": rat(x), "neg0": x == 0 and math.copysign(1.0, x) < 0}
+    if isinstance(x, (list, tuple)):
+        return {"l" if isinstance(x, list) else "t": [walk_raw(y) for y in x]}
+    if isinstance(x, BaseModel):
+        w = walk(x)
+        names = list(type(x).model_fields)
+        vals = [walk_raw(x.__dict__[n]) for n in names]
+        extra = x.__pydantic_extra__ or {}
+        for k in sorted(extra):
+            vals.append(walk_raw(extra[k]))
+        return {"o": w["o"], "n": w["n"], "v": vals}
+    return walk(x)
+
+
+RAW_HOWS = ["model_copy_update", "setattr", "model_construct"]
+
+
+def _raw_variant(obj, field, value, how):
+    """`obj` with `field` holding `value` *as given* (no validation: an int stays an int)"""
+    if how == "model_copy_update":
+        return obj.model_copy(update={field: value})
+    if how == "setattr":
+        o = obj.model_copy()
+        setattr(o, field, value)
+        return o
+    vals = dict(obj.__dict__)
+    vals[field] = value
+    return type(obj).model_construct(**vals)
+
+
+RAW_NUMS = {"0": [0, 0.0, -0.0], "1": [1, 1.0], "big": [2 ** 53, float(2 ** 53)], "half": [0.5],
+            "m1": [-1, -1.0], "2": [2, 2.0]}
+
+
+def _raw_specs():
+    """(class, base builder, numeric field) for the hashable classes with a numeric field in reach of the hash
+    or of ==; Feature.value is hashed, the scores are compared only"""
+    B = _bases()
+    return [("Feature", B["Feature"][0], "value"), ("SoundEventPrediction", B["SoundEventPrediction"][0], "score")]
+
+
+def _impl_py_eq_hash(inp):
+    specs = {c: (b, f) for c, b, f in _raw_specs()}
+    out = []
+    objs = []
+    for side in ("a", "b"):
+        sp = inp[side]
+        base, field = specs[sp["cls"]]
+        o = _construct(sp["cls"], base())
+        hash(o)
+        v = RAW_NUMS[sp["num"]][sp["k"]]
+        o = _raw_variant(o, field, v, sp["how"])
+        if type(o.__dict__[field]) is not type(v):
+            raise AssertionError("the raw value was converted")
+        if walk_raw(o) != sp["tree"]:
+            raise AssertionError("descriptor does not describe the derived object")
+        objs.append(o)
+    a, b = objs
+    r = (a == b)
+    if (b == a) != r:
+        raise AssertionError("__eq__ is not symmetric")
+    return {"eq": bool(r), "hash_eq": hash(a) == hash(b)}
+
+
+def _cmp_py_eq_hash(inp, io, mo):
+    if "raise" in io:
+        return "constructing / comparing the objects raised"
+    if not mo["has_key"]:
+        return "model has no hash key for this class"
+    if mo["eq"] != mo["canon_eq"]:
+        return "model: == on raw values differs from equality of canonical trees"
+    if io["eq"] != mo["eq"]:
+        return "__eq__ differs from Python equality of the field values (1 == 1.0, 0.0 == -0.0)"
+    return None
+
+
+def _to_model_py(inp):
+    return {"a": inp["a"]["tree"], "b": inp["b"]["tree"]}
+
+
 OPS = {
     "encoder": Op("encoder", _impl_encoder,
                   nontrivial=lambda i, o: isinstance(o, dict) and any(e is not None for e in o.get("encode", []))),
@@ -426,6 +826,32 @@ OPS = {
 }
 for _n in ("classification", "multilabel", "prediction"):
     OPS[_n].to_model = lambda inp: {k: v for k, v in inp.items() if k != "monitor"}
+
+# review additions
+_G = lambda inp: {k: v for k, v in inp.items() if k not in ("np", "proto")}  # noqa: E731
+OPS.update({
+    # the three encodings behind a user-defined encoder (any table tag -> index in range): determined
+    "classification_g": Op("classification_g", _impl_classification_g, to_model=_G,
+                           nontrivial=lambda i, o: isinstance(o, int)),
+    "multilabel_g": Op("multilabel_g", _impl_multilabel_g, to_model=_G,
+                       nontrivial=lambda i, o: isinstance(o, list) and any(o)),
+    "prediction_g": Op("prediction_g", _impl_prediction_g, to_model=_G, compare=_cmp_prediction_g,
+                       nontrivial=lambda i, o: isinstance(o, list) and any(x != "0" for x in o)),
+    # indices outside [0, n): numpy's / the list's index rule shows through; not fixed by the property
+    "multilabel_oor": Op("multilabel_oor", _impl_multilabel_g, to_model=_G, compare=_cmp_oor, determined=False,
+                         model_op="multilabel_g", nontrivial=lambda i, o: True),
+    "prediction_oor": Op("prediction_oor", _impl_prediction_g, to_model=_G, compare=_cmp_oor, determined=False,
+                         model_op="prediction_g", nontrivial=lambda i, o: True),
+    "decode_i": Op("decode_i", _impl_decode_i, determined=False, nontrivial=lambda i, o: isinstance(o, list)),
+    "find_tag": Op("find_tag", _impl_find_tag),
+    "find_feature": Op("find_feature", _impl_find_feature),
+    "tag_init": Op("tag_init", _impl_tag_init, to_model=lambda i: {k: v for k, v in i.items() if k != "how"}),
+    "feature_init": Op("feature_init", _impl_feature_init,
+                       to_model=lambda i: {k: v for k, v in i.items() if k != "how"}),
+    "py_eq_hash": Op("py_eq_hash", _impl_py_eq_hash, to_model=_to_model_py, compare=_cmp_py_eq_hash,
+                     holds=_holds_eq_hash, determined=False,
+                     nontrivial=lambda i, o: isinstance(o, dict) and "eq" in o),
+})
 
 
 # ------------------------------------------------------------------ generators
@@ -707,12 +1133,17 @@ def _mark(cases, rng, k):
 def run(ctx):
     ctx.stage("corpus", ctx.run_corpus, OPS)
     ctx.stage("tables", _tables, ctx)
+    ctx.stage("hash-trace", _stage_hash_trace, ctx)
     ctx.stage("discharge", ctx.discharge, ["SoundeventModel.Encoding", "Proofs.C19"])
     ctx.stage("encoder", _stage_encoder, ctx)
     ctx.stage("encodings", _stage_encodings, ctx)
     ctx.stage("prediction", _stage_prediction, ctx)
     ctx.stage("tag-equality", _stage_tag_eq, ctx)
     ctx.stage("eq-hash", _stage_eq_hash, ctx)
+    ctx.stage("generic-encoders", _stage_generic, ctx)
+    ctx.stage("find", _stage_find, ctx)
+    ctx.stage("init", _stage_init, ctx)
+    ctx.stage("raw-values", _stage_raw, ctx)
 
 
 def _stage_encoder(ctx):
@@ -778,6 +1209,270 @@ def _stage_eq_hash(ctx):
                                  "pool object also obtained by " + ", ".join(HOWS) + " from an object hashed before")
 
 
+# ------------------------------------------------------------------ review additions: stages
+def _tables_of(K, P):
+    vals = [None] + list(range(K))
+    return [list(t) for t in itertools.product(vals, repeat=P)]
+
+
+def _stage_generic(ctx):
+    """the three encodings behind user-defined encoders: every table of P pool tags into {skip, 0..K-1}
+    (many-to-one allowed) x every tag list of length <= 3"""
+    rng = ctx.rng
+    P = 3
+    lists = [list(c) for n in range(4) for c in itertools.product(range(P), repeat=n)]
+    cases = []
+    for K in (0, 1, 2):
+        for tbl in _tables_of(K, P):
+            for tags in lists:
+                cases.append({"n": K, "enc": tbl + [None], "tags": tags})
+    extra = []
+    for _ in range(ctx.budget(1500, 30000)):
+        K = rng.choice([3, 4, 5])
+        tbl = [rng.choice([None] + list(range(K))) for _ in range(4)]
+        tags = [rng.randrange(4) for _ in range(rng.choice([0, 1, 2, 4, 7]))]
+        extra.append({"n": K, "enc": tbl, "tags": tags})
+    flags = [{}, {"np": True}, {"proto": True}]
+    allc = [{**c, **flags[i % 3]} for i, c in enumerate(cases + extra)]
+    for name in ("classification_g", "multilabel_g"):
+        ctx.run_cases(OPS[name], allc)
+    ctx.exhaustive["generic encoders"] = (f"every table of {P} tags into {{skip, 0..K-1}} for K <= 2 x {len(lists)} tag lists "
+                                          "(length <= 3): classification_g, multilabel_g; plain int / numpy.int64 indices, "
+                                          "duck-typed / Protocol-derived encoder")
+    sc = [0.25, 0.1, 0.0]
+    pc = []
+    for K in (1, 2):
+        for tbl in _tables_of(K, 2):
+            for n in range(3):
+                for combo in itertools.product(range(2), sc, repeat=n):
+                    preds = [{"i": combo[2 * j], **_sc(combo[2 * j + 1])} for j in range(n)]
+                    pc.append({"n": K, "enc": tbl + [None, None], "preds": preds})
+    for _ in range(ctx.budget(1500, 30000)):
+        K = rng.choice([2, 3, 5])
+        tbl = [rng.choice([None] + list(range(K))) for _ in range(4)]
+        preds = [{"i": rng.randrange(4), **_sc(rng.choice(SCORES))} for _ in range(rng.choice([0, 1, 2, 3, 6]))]
+        pc.append({"n": K, "enc": tbl, "preds": preds})
+    ctx.run_cases(OPS["prediction_g"], [{**c, **flags[i % 3]} for i, c in enumerate(pc)])
+    # indices outside [0, n): the index rule of the store (numpy) behind the Protocol
+    oor = []
+    for K in (0, 1, 2, 3):
+        for e in range(-K - 2, K + 2):
+            for other in (None, 0 if K else None):
+                oor.append({"n": K, "enc": [e, other, None, None], "tags": [0, 1, 2]})
+                oor.append({"n": K, "enc": [other, e, None, None], "tags": [1, 0]})
+    ctx.run_cases(OPS["multilabel_oor"], [{**c, **flags[i % 2]} for i, c in enumerate(oor)])
+    ctx.run_cases(OPS["prediction_oor"], [{"n": c["n"], "enc": c["enc"], **flags[i % 2],
+                                           "preds": [{"i": t, **_sc(0.25 if j else 0.1)} for j, t in enumerate(c["tags"])]}
+                                          for i, c in enumerate(oor)])
+    # decode for any Python integer
+    dc = []
+    for n in range(0, 4):
+        dc.append({"vocab": POOL[:n], "idx": list(range(-n - 2, n + 2))})
+    ctx.run_cases(OPS["decode_i"], dc)
+    # the index rules themselves are the library's: contracts on numpy and on list / tuple
+    import numpy as np
+    for n in range(0, 5):
+        idx = list(range(-n - 2, n + 3))
+        want = ctx.model("norm_idx", {"n": n, "idx": idx})
+        for i, w in zip(idx, want):
+            got = []
+            for mk, ix in ((lambda: np.zeros(n, dtype=np.int32), i), (lambda: np.zeros(n, dtype=np.float32), np.int64(i)),
+                           (lambda: [0] * n, i)):
+                a = mk()
+                try:
+                    a[ix] = 1
+                    got.append([k for k in range(n) if a[k] == 1])
+                except IndexError:
+                    got.append(None)
+            try:
+                got.append([list(range(n)).index(tuple(range(n))[i])])
+            except IndexError:
+                got.append(None)
+            ok = all(g == (None if w is None else [w]) for g in got)
+            ctx.contract("index-rule", ok, {"n": n, "i": i}, got)
+
+
+def _sc(s):
+    return {"score": rat(s), "score32": rat(f32(s))}
+
+
+def _stage_find(ctx):
+    rng = ctx.rng
+    pool = POOL[:6]
+    terms = [T0, T1, T2, T4, T5]
+    labels = ["species", "Species", "colour", "", "zz"]
+    cases = []
+    lists = [list(c) for n in range(4) for c in itertools.product(range(4), repeat=n)]
+    for tags in lists:
+        tl = [pool[i] for i in tags]
+        for term in [None] + terms[:3]:
+            for label in [None, "species", "Species"]:
+                c = {"tags": tl}
+                if term is not None:
+                    c["term"] = term
+                if label is not None:
+                    c["label"] = label
+                cases.append(c)
+    for _ in range(ctx.budget(600, 8000)):
+        c = {"tags": [rng.choice(POOL) for _ in range(rng.choice([0, 1, 2, 3, 5, 8]))]}
+        if rng.random() < 0.6:
+            c["term"] = rng.choice(terms + [None])
+        if rng.random() < 0.6:
+            c["label"] = rng.choice(labels + [None])
+        if rng.random() < 0.5:
+            c["default"] = rng.choice(POOL + [None])
+        cases.append(c)
+    ctx.run_cases(OPS["find_tag"], cases)
+    ctx.exhaustive["find_tag"] = (f"{len(lists)} tag lists (length <= 3 over 4 pool tags) x {{no term, 3 terms}} x "
+                                  "{no label, 2 labels}; random longer ones with defaults")
+    fcases = []
+    vals = [0.0, 1.0, -1.5]
+    for _ in range(ctx.budget(600, 8000)):
+        c = {"features": [{"term": rng.choice(terms), "value": rat(rng.choice(vals))}
+                          for _ in range(rng.choice([0, 1, 2, 3, 5]))]}
+        if rng.random() < 0.6:
+            c["term"] = rng.choice(terms + [None])
+        if rng.random() < 0.6:
+            c["label"] = rng.choice(labels + [None])
+        if rng.random() < 0.5:
+            c["default"] = rng.choice([None, {"term": T5, "value": rat(2.0)}])
+        fcases.append(c)
+    fcases.append({"features": []})
+    fcases.append({"features": [{"term": T0, "value": "0"}], "label": None, "term": None})
+    ctx.run_cases(OPS["find_feature"], fcases)
+
+
+KEYS = ["animal", "", "a:b", "soundevent:animal", "Animal", " ", "ünï", "species"]
+
+
+def _stage_init(ctx):
+    cases, fcases = [], []
+    for how in ("init", "validate"):
+        for key in [None] + KEYS:
+            for term in (None, T0, T1, term_desc("animal", "soundevent:animal", definition="Unknown")):
+                for value in ("dog", ""):
+                    cases.append({"key": key, "term": term, "value": value, "how": how})
+                for value in (0.0, 1.5):
+                    fcases.append({"name": key, "term": term, "value": rat(value), "how": how})
+    ctx.run_cases(OPS["tag_init"], cases)
+    ctx.run_cases(OPS["feature_init"], fcases)
+    ctx.exhaustive["tag_init/feature_init"] = (f"{{no key, {len(KEYS)} keys}} x {{no term, 3 terms}} x 2 values x "
+                                               "{constructor, model_validate}")
+
+
+def _stage_raw(ctx):
+    """objects holding an int where a float is declared / a signed zero, reached without validation"""
+    cases = []
+    from soundevent import data
+    for cls, base, field in _raw_specs():
+        variants = []
+        frozen = bool(getattr(data, cls).model_config.get("frozen"))
+        for num, vs in RAW_NUMS.items():
+            for k, v in enumerate(vs):
+                for how in RAW_HOWS:
+                    if how == "setattr" and frozen:
+                        continue
+                    o = _raw_variant(_construct(cls, base()), field, v, how)
+                    variants.append({"cls": cls, "num": num, "k": k, "how": how, "tree": walk_raw(o)})
+        for a in variants:
+            for b in variants:
+                if a["how"] == b["how"] or a["num"] == b["num"]:
+                    cases.append({"a": a, "b": b})
+        ctx.tally("py_eq_hash variants " + cls, len(variants))
+    ctx.run_cases(OPS["py_eq_hash"], cases)
+    # CPython's numeric hash invariant (hypothesis `hfi` of C19_pyhash_respects_eq) on the values used
+    for vs in RAW_NUMS.values():
+        ctx.contract("numeric-hash-invariant", len({hash(v) for v in vs}) == 1 and all(v == vs[0] for v in vs),
+                     {"values": [repr(v) for v in vs]}, [hash(v) for v in vs])
+
+
+# ---- tie 1b for the hand-written hashes: run them on opaque field values ---------------------------
+class _Untraceable(Exception):
+    pass
+
+
+class _Leaf:
+    """an opaque field value: it can be hashed (logged) and dereferenced, nothing else"""
+    __slots__ = ("_path", "_h", "_log")
+
+    def __init__(self, path, h, log):
+        object.__setattr__(self, "_path", path)
+        object.__setattr__(self, "_h", h)
+        object.__setattr__(self, "_log", log)
+
+    def __hash__(self):
+        self._log.append(self._path)
+        return self._h
+
+    def __getattr__(self, name):
+        if name.startswith("__"):
+            raise AttributeError(name)
+        return _Leaf(self._path + "." + name, hash((self._h, name)), self._log)
+
+    def _no(self, *a, **k):
+        raise _Untraceable("a field value is inspected otherwise than by hashing it: " + self._path)
+
+    __eq__ = __ne__ = __lt__ = __le__ = __gt__ = __ge__ = __bool__ = __len__ = __iter__ = _no
+    __str__ = __repr__ = __format__ = __int__ = __float__ = __index__ = __bytes__ = __getitem__ = _no
+
+
+def _hash_trace(cls, seed):
+    """hash(obj) for a genuine instance of `cls` whose every field is an opaque leaf"""
+    import random
+    r = random.Random(seed)
+    log = []
+    hs = {f: r.randrange(1, 2 ** 60) for f in cls.model_fields}
+    obj = cls.model_construct(**{f: _Leaf(f, hs[f], log) for f in cls.model_fields})
+    return hash(obj), log, hs
+
+
+def _stage_hash_trace(ctx):
+    import soundevent.data as D
+    rows = []
+    for c in HASHED:
+        cls = getattr(D, c, None)
+        name = "hash_trace_" + c
+        if cls is None:
+            ctx.pre_failed.append(name)
+            ctx.fail("obligation", name, detail="class is gone")
+            continue
+        try:
+            r1, log1, _ = _hash_trace(cls, 1)
+            r1b, log1b, _ = _hash_trace(cls, 1)          # another instance, same field hashes
+            r2, log2, _ = _hash_trace(cls, 2)            # other field hashes
+            r1c = hash(cls.model_construct(**{f: _Leaf(f, h, []) for f, h in _hash_trace(cls, 1)[2].items()}))
+        except Exception as e:  # noqa: BLE001
+            ctx.symbolic_ties[name] = {"error": repr(e)[:300]}
+            ctx.pre_failed.append(name)
+            ctx.fail("obligation", name, detail=f"the hand-written __hash__ could not be run on opaque field values: {e!r}",
+                     extra={"cls": c})
+            continue
+        heads = sorted({p.split(".")[0] for p in log1})
+        det = (r1 == r1b == r1c) and log1 == log1b == log2
+        sens = r1 != r2 if log1 else True
+        ctx.symbolic_ties[name] = {"paths": 1, "hashed": log1}
+        rows.append((c, heads))
+        declared = list(cls.model_fields)
+        src = (f"-- hash({c}) on opaque field values: hashed {log1}; same on another instance: {det}\n"
+               f"example : ({'true' if det else 'false'} && {'true' if sens else 'false'}) = true := by decide\n"
+               f"example : (SE.Encoding.HashRow.mk \"{c}\" {_lean_strs(declared)} {_lean_strs(heads)}).wellFormed = true "
+               f":= by decide")
+        ctx.obligation(name, src, {"cls": c, "hashed": log1, "deterministic": det})
+        ctx.tally(f"hash trace {c}: hashes {','.join(log1) or '-'}")
+    # the theorem `equal objects hash equally` instantiated with the extracted table (for all values)
+    tbl = "[" + ", ".join(f'("{c}", {_lean_strs(h)})' for c, h in rows) + "]"
+    src = ("example (H : SE.Encoding.PyHasher) (hfi : ∀ n : Int, H.float n = H.int n) (a b : SE.Encoding.PyVal)\n"
+           "    (h : SE.Encoding.PyVal.beq a b = true) :\n"
+           f"    SE.Encoding.pyHash (SE.Encoding.tableOf {tbl}) H a = SE.Encoding.pyHash (SE.Encoding.tableOf {tbl}) H b :=\n"
+           f"  SE.Proofs.C19.C19_pyhash_respects_eq _ H hfi a b h")
+    ctx.obligation("hash_trace_table", src, {"table": rows})
+    model_tbl = {"Term": ["name"], "Tag": ["term", "value"], "Feature": ["term", "value"]}
+    for c, h in rows:
+        if h != model_tbl.get(c, ["uuid"]):
+            ctx.note(f"{c}.__hash__ now hashes {h} (the model's default table says {model_tbl.get(c, ['uuid'])}); "
+                     "the theorem was instantiated with the extracted table")
+
+
 def search(ctx, failures):
     """something no longer checks: widest scopes, with the Lean-side statements of the property on every case"""
     rng = ctx.rng
@@ -791,3 +1486,5 @@ def search(ctx, failures):
     plists = list(_lists(items, 2))
     ctx.run_cases(OPS["prediction"], ({"vocab": v, "preds": p} for v in vocs for p in rng.sample(plists, 30)))
     ctx.run_cases(OPS["eq_hash"], _eq_hash_cases(ctx))
+    for st in (_stage_generic, _stage_find, _stage_init, _stage_raw):
+        ctx.stage("search:" + st.__name__, st, ctx)
